@@ -6,6 +6,7 @@ CONSTANTS
   WSamp = 3
   N = 3
   W = 2
+  MaxNow = 2
 INIT Init
 NEXT Next
 VIEW View
